@@ -216,7 +216,8 @@ def _inv_bits(bc) -> str:
     covers = all(any(h in t and b in dbt.get(t[-1], ()) for b, t in trees.items()) for h in pl)
     c = bc._longest_chain_cache
     cache = True if c is None else _up_path(pl, list(c) + [bc.parent_hash])
-    return "%d%d%d" % (sound, covers, cache)
+    missing = {k for k in cf.missing_parents() if dbt[k]} == {p for p in pl.values() if p not in pl}
+    return "%d%d%d%d" % (sound, covers, cache, missing)
 
 
 def impl_inv(op: str) -> str:
@@ -444,8 +445,8 @@ def oracle(op: str, out: str):
         for i, o in enumerate([] if out == "ok ~" else out[3:].split("|")):
             if o.startswith("err") or o == "outside":
                 return None   # judged on the twin `c15` op
-            if o != "111":
-                return "step %d: finder state sound/covering/cache-path = %s (the hypotheses of the C15 theorems fail)" % (i, o)
+            if o != "1111":
+                return "step %d: finder state sound/covering/cache-path/missing-parents = %s (the hypotheses of the C15 theorems fail)" % (i, o)
         return None
     if op.startswith("c15two ") and out.startswith("ok"):
         parts = out[3:].split("#")
